@@ -488,7 +488,14 @@ pub fn run(torn_mode: bool, tier: &str, seed: u64, replay: Option<&str>, corpus_
                 rep.count("c02.streams-monitored");
             }
             if let Some(what) = bad {
-                rep.fail("contract", "c02:operation-order-outside-the-verified-discipline", &what, &hline);
+                // the removal of a file recovery still needs is C11's business as well: the monitor's
+                // conditions on removeWal / removeTable / removeManifest are the definition of "needed"
+                let removal = what.contains(" removeWal ") || what.contains(" removeTable ") || what.contains(" removeManifest ");
+                if removal {
+                    rep.fail("oracle", "c11:file-needed-by-recovery-removed", &what, &hline);
+                } else {
+                    rep.fail("contract", "c02:operation-order-outside-the-verified-discipline", &what, &hline);
+                }
             }
         }
         let mut prng = Prng::new(seed ^ (j as u64) << 8);
